@@ -88,6 +88,7 @@ type c16World struct {
 	mgr    *ContractManager
 	cancel context.CancelFunc
 	done   chan struct{}
+	gate   chan struct{}
 }
 
 func (w *c16World) start() {
@@ -200,6 +201,28 @@ func c16Exec(tr *vh.Transcript, ops []string) {
 				c.StartsAt = 1700000000
 				go w.chain.Emit(c16Addr("cf"), "clonefactoryContractPurchased", c.Addr, c.Validator)
 			}
+		case "purchasedslow": // like purchased, but the node's answer about the contract is held back until `rpcrelease`
+			c := w.chain.Get(c16Addr(f[1]))
+			if c != nil {
+				set(c, f[2:])
+				c.State = 1
+				c.StartsAt = 1700000000
+				gate := make(chan struct{})
+				w.gate = gate
+				addr := c.Addr
+				w.chain.CallGate = func(to common.Address, method string) {
+					if to == addr && method == "getPublicVariablesV2" {
+						<-gate
+					}
+				}
+				go w.chain.Emit(c16Addr("cf"), "clonefactoryContractPurchased", c.Addr, c.Validator)
+			}
+		case "rpcrelease":
+			if w.gate != nil {
+				close(w.gate)
+				w.gate = nil
+				w.chain.CallGate = nil
+			}
 		case "closed":
 			if c := w.chain.Get(c16Addr(f[1])); c != nil {
 				c.State = 0
@@ -281,6 +304,10 @@ func c16Gen(r *vh.Rng, orderly bool) []string {
 			s.running, s.mine = true, b == "me" || v == "me"
 			s.buyer, s.validator = b, v
 			ops = append(ops, fmt.Sprintf("purchased %s buyer=%s validator=%s", c, b, v))
+		case k < 58 && s.running && s.mine && s.seller != "me" && !orderly && r.Bool(50):
+			// close followed closely by re-purchase: the purchase event is being handled (its eth_call in flight)
+			// while the ended purchase's controller returns
+			ops = append(ops, "closed "+c, fmt.Sprintf("purchasedslow %s buyer=%s validator=%s", c, s.buyer, s.validator), "ctlexit "+c, "rpcrelease")
 		case k < 75 && s.running:
 			s.running = false
 			ops = append(ops, "closed "+c)
